@@ -16,6 +16,7 @@ import (
 	"fmt"
 	"os"
 	"runtime/debug"
+	"runtime/pprof"
 	"sort"
 	"sync"
 	"sync/atomic"
@@ -1219,6 +1220,10 @@ func exhaustive(tkind, route, hname string, L, workers int, core bool) {
 			var st exhStats
 			keys := mkKeys(hashes)
 			th := &starlark.Thread{Name: "c12"}
+			// one Dict / Set object per worker, reset to the zero value before every history
+			// (the same memory state as new(Dict); saves the allocator most of the run time)
+			dict0, set0 := new(starlark.Dict), new(starlark.Set)
+			subj := &Subject{tkind: tkind, route: route, keys: keys, th: th}
 			seq := make([]int, 0, L)
 			ops := make([]Op, 0, len(prefix)+L)
 			// oracle state after the prefix and after each chosen symbol
@@ -1255,7 +1260,15 @@ func exhaustive(tkind, route, hname string, L, workers int, core bool) {
 							bad = true
 						}
 					}()
-					s := newSubjectK(tkind, route, keys, th, -1)
+					s := subj
+					*s = Subject{tkind: tkind, route: route, keys: keys, th: th}
+					if tkind == "dict" {
+						*dict0 = starlark.Dict{}
+						s.x = dict0
+					} else {
+						*set0 = starlark.Set{}
+						s.x = set0
+					}
 					for _, o := range ops[:len(ops)-1] {
 						if withCov {
 							loc, had := s.before(o)
@@ -1807,6 +1820,16 @@ func sampleHistory(r *hx.Rand, id, maxops int) History {
 			}
 		case x < 72:
 			o = Op{Op: "lookup", K: r.Intn(nkeys)}
+			if h.TKind == "set" && r.Intn(2) == 0 {
+				ks := coll()
+				if r.Intn(2) == 0 {
+					ks = append(ks, live...) // likely a superset of the live elements
+				}
+				o = Op{Op: []string{"issubset", "issuperset"}[r.Intn(2)], Ks: ks, Form: r.Intn(2)}
+				if o.Form == 1 {
+					o.Ks = dedupInts(ks)
+				}
+			}
 		case x < 78:
 			o = Op{Op: "popfirst"}
 		case x < 84:
@@ -1907,7 +1930,14 @@ func main() {
 		fmt.Fprintln(os.Stderr, "usage: c12 exhaustive|random|sample|replay ...")
 		os.Exit(2)
 	}
-	debug.SetGCPercent(800)
+	if os.Getenv("GOGC") == "" {
+		debug.SetGCPercent(200) // measured: larger heaps only add page faults here
+	}
+	if pf := os.Getenv("C12_CPUPROFILE"); pf != "" {
+		f, _ := os.Create(pf)
+		pprof.StartCPUProfile(f)
+		defer pprof.StopCPUProfile()
+	}
 	loadStar()
 	fs := flag.NewFlagSet(os.Args[1], flag.ExitOnError)
 	L := fs.Int("len", 4, "history length (exhaustive)")
